@@ -2154,6 +2154,20 @@ def normalise_program(prog, *, inline: bool = True,
                 node = u
                 if q not in report["canonicalised"]:
                     report["canonicalised"].append(q)
+            # loops whose `continue` was turned into a guard can unroll now
+            if unroll_loops and any(
+                    isinstance(n_, ast.For) and isinstance(
+                        n_.iter, (ast.Tuple, ast.List))
+                    for n_ in ast.walk(node)):
+                u2, ch2 = unroll(node)
+                if ch2:
+                    node = u2
+                    if q not in report["unrolled"]:
+                        report["unrolled"].append(q)
+                    u3, ch3 = canonicalise(node, selfname, all_slots, rebound,
+                                           mfuncs, vprops, any_views)
+                    if ch3:
+                        node = u3
         if node is not originals.get(q, fi.node) or q in touched:
             return node
         return None
